@@ -10,6 +10,8 @@ import torch
 from harness import tlaval
 from harness.impl import base
 from tangermeme.tools.fimo import fimo
+from tangermeme.tools import fimo as F
+import math
 
 TMP = tempfile.mkdtemp(prefix="c12-", dir=os.environ.get("VERIF_SCRATCH", "/tmp"))
 LET = "ACGT"
@@ -36,6 +38,27 @@ def norm(dfs, names, scale, widths, by_seq=False):
     return sorted(out), exact
 
 
+def float_table(M, scale, sd):
+    pwm = pwm_of(M, scale).numpy()
+    if sd:
+        pwm = pwm[::-1, ::-1]
+    return F._pwm_to_mapping(numpy.ascontiguousarray(numpy.log2(pwm) - math.log2(0.25)), 1.0 / scale)
+
+
+def tie_below(c):
+    """per motif and strand: did the FLOAT table resolve a mathematical tie tail == threshold as 'below'?  (C11 observation point)"""
+    thr = c["thr"][0] / c["thr"][1]
+    out = []
+    for M in c["motifs"]:
+        row = []
+        for sd in (0, 1):
+            _, t = float_table(M, c["scale"], sd)
+            tie = [b for b in range(len(t)) if t[b] > -1e300 and abs(2.0 ** t[b] - thr) <= 1e-12 * thr]
+            row.append(bool(tie) and bool(t[tie[0]] < math.log2(thr)))
+        out.append(row)
+    return out
+
+
 def scan(c, variant):
     scale = c["scale"]                      # bin_size = 1/scale
     motifs = {"m%d" % i: pwm_of(M, scale) for i, M in enumerate(c["motifs"])}
@@ -44,7 +67,7 @@ def scan(c, variant):
     thr = c["thr"][0] / c["thr"][1]
     kw = dict(bin_size=1.0 / scale, eps=0.0, threshold=thr, reverse_complement=c["rc"])
     ev = dict(motifs=c["motifs"], seqs=c["seqs"], thr=c["thr"], rc=c["rc"], scale=scale, hits=[], exact=True, fasta_same=True,
-              dim1_same=True, counts_same=True, threads_same=True, variant=variant)
+              dim1_same=True, counts_same=True, threads_same=True, variant=variant, tielt=tie_below(c))
     fa = os.path.join(TMP, "q%d_%d.fa" % (os.getpid(), variant))
     with open(fa, "w") as f:
         for nm, s in zip(names, c["seqs"]):
@@ -114,6 +137,13 @@ def gen_call(rng):
         seqs.append(s)
     k = max(rng.choice([3, 4, 5, 6]), max(len(M[0]) for M in motifs))
     thr = [2 * rng.randint(1, 40) + 1, 2 * 4 ** k]       # odd / (2*4^k): never equal to a tail probability j/4^w for w <= k
+    if rng.random() < 0.25:
+        # a threshold that IS an attainable tail probability (a tie): count / 4^w for a bin of one of the motifs
+        M = rng.choice(motifs); w = len(M[0])
+        _, t = float_table(M, scale, 0)
+        cnts = sorted({int(round(2.0 ** v * 4 ** w)) for v in t if v > -1e300} - {0, 4 ** w})
+        if cnts:
+            thr = [rng.choice(cnts), 4 ** w]
     return dict(motifs=motifs, seqs=seqs, thr=thr, rc=rng.random() < 0.7, scale=scale)
 
 
